@@ -5,6 +5,7 @@ covering scheme).  For every code: normalise -> accepted, no whitespace, idempot
 variants (case, spacing, unit suffix, trailing zeros) normalise identically; near misses are refused with ValueError."""
 import re, itertools
 from vlib import common, rxmc
+from vlib import orderpass
 from vlib.common import Report, Violation, HarnessError, Acc, pmap, merge
 
 PID = 'C07'
@@ -214,6 +215,11 @@ def run(tier):
                         'family of a code with surrounding blanks is that of the stripped code']
     if n < 20000 or t['extra'].get('variant_classes', 0) < 5000:
         raise HarnessError('vacuous: %d codes, %r' % (n, t['extra']))
+    U = 'athlib.utils:'
+    codes = ['100', '100m', '100M', ' 100 M', '10mw', '10MW', 'SPB', 'spb', 'BAL', 'bal', '4x100', '4X100', '4x100M', '4x100m', '110H106.7cm9.14m', '110h106.7CM9.14M', 'DT 1.50 Kg', 'dt1.5k',
+             'DT1.5K', 'JT800', 'jt800g', 'MAR W', 'mar', 'Mar', 'MILE', 'mile', 'MILe', '2000SC84cm', 'sc', 'SC', 'HJ', 'hj', 'XYZ', '']
+    oc = [(U + 'normalize_event_code', (c,)) for c in codes] + [(U + 'check_event_code', (c,)) for c in codes[:16]]
+    orderpass.part(rep, oc, 'normalisation call-order pass')
     return rep.finish()
 
 
